@@ -113,6 +113,24 @@ func (w *World) registerTimeIntrinsics() {
 		s2, n2 := e.timeParts(a[0])
 		return mkAdd(mkMul(mkSub(s1, s2), billion), mkSub(n1, n2))
 	}
+	I["time.Until"] = func(e *Exec, fn *ssa.Function, a []Value) Value {
+		s1, n1 := e.timeParts(a[0])
+		s2, n2 := e.timeParts(e.now())
+		return mkAdd(mkMul(mkSub(s1, s2), billion), mkSub(n1, n2))
+	}
+	// Duration.Round(m): to the nearest multiple of m, halfway values away from zero
+	I["(time.Duration).Round"] = func(e *Exec, fn *ssa.Function, a []Value) Value {
+		d, m := a[0].(*Term), a[1].(*Term)
+		mv, ok := m.intVal()
+		if !ok || mv <= 0 {
+			return d
+		}
+		r := mkRem(d, m) // truncated remainder, sign of d
+		pos := mkIte(mkLt(mkMul(mkInt(2), r), m), mkSub(d, r), mkAdd(mkSub(d, r), m))
+		nr := mkSub(mkInt(0), r)
+		neg := mkIte(mkLt(mkMul(mkInt(2), nr), m), mkSub(d, r), mkSub(mkSub(d, r), m))
+		return mkIte(mkLt(d, mkInt(0)), neg, pos)
+	}
 	I["(time.Time).Truncate"] = func(e *Exec, fn *ssa.Function, a []Value) Value {
 		sec, nsec := e.timeParts(a[0])
 		d, ok := a[1].(*Term).intVal()
